@@ -109,6 +109,10 @@ def check(case):
     except Exception as e:  # noqa: BLE001
         res["evals"] += 1
         sig = f"C01:codegen-raises:{cm.exc_site(e)}"
+        # a sympy Boolean handled as a number (`'BooleanFalse' object has no attribute 'as_coeff_Mul'`) in a model whose TEXT uses a
+        # relational / logical value as a number: the listed boolean-used-arithmetically finding; anything else keeps the bare signature
+        if isinstance(e, AttributeError) and "Boolean" in str(e) and ref.boolean_used_arithmetically():
+            sig += ":boolean-used-arithmetically"
         add(sig, "numpy code generation raises for an accepted model", {"ode": text}, "code", cm.exc_name(e), cm.short(e), base=sig)
         return res
     try:
@@ -141,6 +145,8 @@ def check(case):
                 got = np.asarray(mod["rhs"](pt["t"], s, p), dtype=float)
         except Exception as e:  # noqa: BLE001
             sig = f"C01:rhs-raises:{cm.exc_name(e)}"
+            if ref.boolean_used_arithmetically():  # NumPy computes with booleans / integers there (`2**-int`): territory + message key
+                sig += f":boolean-used-arithmetically:{cm.msg_key(e)}"
             add(sig, "generated rhs raises at a point where the model is defined", inp, want, cm.exc_name(e), cm.short(e), base=sig)
             continue
         if got.shape != (len(names),):
